@@ -85,7 +85,7 @@ def ftTaint (e : FtControl.Err) : Bool := match e with | .data n => n ≥ 1000 |
 
 def skRun (r : Req) (ped : Bool) : String :=
   let blank (n : Nat) : List Interp.Def := (List.range n).map (fun _ => {})
-  let s1 := Interp.run (skCfg r false) (Interp.initSt 0 (blank r.nF) (blank r.nI) [] (dat0 r false))
+  let s1 := Interp.run (skCfg r false) (Interp.initSt 0 (blank (Interp.functionSlots r.nF)) (blank r.nI) [] (dat0 r false))
   match s1.status with
   | .failed e => if skTaint e then "tainted" else s!"err:new:{e.name}"
   | .stuck => "stuck"
@@ -177,7 +177,7 @@ def cmpRun (r : Req) (ped : Bool) : String :=
        let b2 := ftStage (ftCfg r false false) 2 (FtControl.initSt 2 b.fdefs b.idefs b.maxFunc b.maxIns [] (dat0 r false))
        a2.status != b2.status || a2.data.store != b2.data.store || a2.fdefs != b2.fdefs || a2.idefs != b2.idefs))
   if pedChanges then "diff:fpgm:pedantic-load-changes-fpgm-or-prep" else
-  stage "fpgm" c fc 1 (Interp.initSt 0 (blank r.nF) (blank r.nI) [] (dat0 r false))
+  stage "fpgm" c fc 1 (Interp.initSt 0 (blank (Interp.functionSlots r.nF)) (blank r.nI) [] (dat0 r false))
       (FtControl.initSt 1 [] [] 0 0 [] (dat0 r false)) fun s1 t1 =>
     if s1.vs ≠ [] then "diff:prep:initial-stack-left-by-fpgm"
     else if s1.data.store ≠ zeros r.nSto then "diff:prep:storage-written-by-fpgm"
